@@ -36,6 +36,8 @@ GENS = [
     ("j3", "{ZS}", "{S10}", "<<JMsgs1, JRej \\cup JMsgs3, JMsgs1>>", 3, ("thorough",)),
     # a zone-class update RR with RDLENGTH 0, then another message (the journal must stay loadable whatever the reply)
     ("jempty", "{ZS}", "{S10}", "<<JEmpty, JMsgs3 \\cup JRej>>", 2, ("quick", "thorough")),
+    # DS / CDS / CDNSKEY / DNSKEY as ordinary data of an unsigned zone, in the zone file (dump) and by update
+    ("jsec", "{ZD}", "{S10}", "<<JSec1, JSec1>>", 2, ("quick", "thorough")),
     # long journals (more than 64 / 128 rows): padded zone, rows of kind add / delete / SOA / dump swept over row 65 (130)
     ("jlong", "{ZPad(p) : p \\in {58, 59, 60, 62}}", "{S10}", "<<{JLong1}, {JLong2}, {JLong3}>>", 3, ("quick",)),
     ("jlongfull", "{ZPad(p) : p \\in (53..64) \\cup (118..126)}", "{S10}", "<<{JLong1}, {JLong2}, {JLong3}>>", 3, ("thorough",)),
